@@ -50,6 +50,15 @@ func c10Gen(g *Gen) []Case {
 			}
 		}
 	}
+	// the twelve years up to now in which a Jie falls inside the rat slot that straddles the civil year end (31 December
+	// 23:xx or 1 January 00:xx; found by scanning the unchanged library's tables), under two early base years
+	for _, y := range []int{829, 832, 836, 862, 866, 869, 899, 902, 906, 932, 936, 939} {
+		for _, b := range []int{1, 800} {
+			if !g.Quick || (y+b)%2 == 1 {
+				cs = append(cs, Case{K: "jie", A: []int{y, b}})
+			}
+		}
+	}
 	// for every non-default base year B: the Lichun year one cycle after B-1 has the same year pillar as B-1; its winter
 	// months are walked day by day so that any candidate of B-1 that slips past the base-year filter is seen
 	for _, b := range []int{1000, 1200, 1500, 1800, 1950} {
@@ -180,7 +189,7 @@ func c10Run(w *W, c Case) {
 				c10Lookup(w, ref.FromSecs(t), base, class)
 			}
 		}
-		for p := 2; p <= 24; p += 2 {
+		for p := 2; p <= 30; p += 2 { // (entries 26..30 are next year's first Jie: in the Julian centuries 小寒 still falls in this December)
 			e := tbl[termKeys31[p]]
 			if e == nil {
 				continue
